@@ -162,6 +162,22 @@ class TupleT(Ty):
         return [TupleT(*c) for c in itertools.product(*[e.shapes() for e in self.elems])]
 
 
+class ListOfT(Ty):
+    """A Python list of fixed length with a type per element."""
+
+    def __init__(self, *elems):
+        self.elems = elems
+
+    def make(self, name, ctx):
+        return [e.make(f"{name}[{i}]", ctx) for i, e in enumerate(self.elems)]
+
+    def concretize(self, name, model):
+        return [e.concretize(f"{name}[{i}]", model) for i, e in enumerate(self.elems)]
+
+    def shapes(self):
+        return [ListOfT(*c) for c in itertools.product(*[e.shapes() for e in self.elems])]
+
+
 class DictT(Ty):
     def __init__(self, **fields):
         self.fields = fields
@@ -342,6 +358,7 @@ class Contract:
         self.max_paths = int(d.get("max_paths", 1500))
         self.pure = bool(d.get("pure", False))
         self.explore_s = d.get("explore_s")
+        self.hints = {k[len("hint_"):]: _fn(v) for k, v in d.items() if k.startswith("hint_")}
         self.requires_more = [_fn(v) for k, v in d.items() if k.startswith("requires_")]
         self.args_thorough = d.get("args_thorough")
 
